@@ -194,7 +194,9 @@ def c07_nested(expr, want):
     from flow.record.selector import CompiledSelector, Selector
 
     A = RecordDescriptor("c07/na", [("string", "s")])
-    b = RecordDescriptor("c07/nb", [("string", "t"), ("record", "sub"), ("record[]", "subs")])(t="y", sub=A(s="x"), subs=[A(s="z")])
+    M = RecordDescriptor("c07/nm", [("record", "inner"), ("record[]", "inners"), ("varint", "k")])
+    deep = M(inner=A(s="needle"), inners=[M(inner=A(s="needle3"), inners=[], k=7)], k=1)
+    b = RecordDescriptor("c07/nb", [("string", "t"), ("record", "sub"), ("record[]", "subs"), ("record", "deep")])(t="y", sub=A(s="x"), subs=[A(s="z"), M(inner=A(s="needle2"), inners=[], k=2)], deep=deep)
     out = []
     for cls in (Selector, CompiledSelector):
         try:
